@@ -117,7 +117,10 @@ class Scene(Geometry3D):
         base = self.graph.base_frame
         for child in self.graph.transforms.children[base]:
             combined = np.dot(transform, self.graph[child][0])
-            self.graph.update(frame_from=base, frame_to=child, matrix=combined)
+            # only the matrix changes: keep what else is attached to the edge
+            edge = self.graph.transforms.edge_data.get((base, child), {})
+            keep = {k: edge[k] for k in ("geometry", "metadata") if k in edge}
+            self.graph.update(frame_from=base, frame_to=child, matrix=combined, **keep)
         return self
 
     def add_geometry(
